@@ -4,8 +4,8 @@
 (* a seeded sample of the whole generated domain; this default keeps the specs          *)
 (* self-contained.                                                                      *)
 RawConfigs == {
-  [strat |-> "all", typed |-> "Restart", ptyped |-> "default", any |-> "none", late |-> FALSE, max |-> 1, win |-> "short", backoff |-> FALSE],
-  [strat |-> "one", typed |-> "Escalate", ptyped |-> "Restart", any |-> "none", late |-> FALSE, max |-> 2, win |-> "long", backoff |-> TRUE],
-  [strat |-> "all", typed |-> "Stop", ptyped |-> "default", any |-> "Restart", late |-> TRUE, max |-> 0, win |-> "short", backoff |-> FALSE] }
+  [strat |-> "all", typed |-> "Restart", ptyped |-> "default", any |-> "none", late |-> FALSE, max |-> 1, win |-> "short", backoff |-> FALSE, mix |-> FALSE],
+  [strat |-> "one", typed |-> "Escalate", ptyped |-> "Restart", any |-> "none", late |-> FALSE, max |-> 2, win |-> "long", backoff |-> TRUE, mix |-> TRUE],
+  [strat |-> "all", typed |-> "Stop", ptyped |-> "default", any |-> "Restart", late |-> TRUE, max |-> 0, win |-> "short", backoff |-> FALSE, mix |-> FALSE] }
 RawPConfigs == { [dir |-> "Restart", onsig |-> "fail"], [dir |-> "Stop", onsig |-> "ignore"] }
 =============================================================================
